@@ -137,7 +137,9 @@ class TemplateDPADistinguisherMixin(_BaseTemplateAttackDistinguisherMixin):
         return data.shape[1]
 
     def get_template_index(self, data, i):
-        return data[:, i]
+        # Hypothesis values select the template of the class declared with that value, not the row of that rank.
+        lut = partitioned._build_lut(_np.asarray(self.partitions))
+        return lut[data[:, i]]
 
     @property
     def _distinguisher_str(self):
